@@ -14,7 +14,7 @@ use serde_json::json;
 pub const PROP: PropDef = PropDef {
     id: "C08",
     parts,
-    rule: "every history (length <= 3 quick / 4 thorough) over check outcome classes {no-update, update installed, update + reboot wait, deferred, install failed, transport, HTTP 500, forged (CUP), unparseable, plan failure}, pings {ok, transport, unparseable} and end-of-wait during the reboot wait, and restart, with CUP on/off and a construction-failure configuration; the clock advances by a non-microsecond-aligned step at every read; after every storage commit (= every distinct surviving storage for a crash at any later interaction) a fresh state machine is built on the snapshot and what it presents to its policy is compared with the reference; non-trivial = history contains a failure or a ping",
+    rule: "every history (length <= 3 quick / 4 thorough) over check outcome classes {no-update, update installed, update + reboot wait, deferred, install failed, transport, HTTP 500, forged (CUP), unparseable, plan failure, and install / unparseable / plan failure with an X-Retry-After on an event-report answer (mid-check commits)}, pings {ok, transport, unparseable} and end-of-wait during the reboot wait, and restart, with CUP on/off and a construction-failure configuration; the clock advances by a non-microsecond-aligned step at every read; after every storage commit (= every distinct surviving storage for a crash at any later interaction) a fresh state machine is built on the snapshot and what it presents to its policy is compared with the reference; non-trivial = history contains a failure or a ping",
     assumptions: &[
         "a check is 'failed' iff its UpdateCheckResult is Err (an install failure inside an Ok result is a successful check; plan-creation failure is Err)",
         "storage commits are atomic (Storage trait contract); a crash loses exactly the uncommitted writes",
@@ -33,6 +33,10 @@ enum Step {
     Unparseable,
     PlanFail,
     Forged,
+    /// like Installed / Unparseable / PlanFail, but the answer to an event report dictates a poll interval
+    InstalledRetryAfter,
+    UnparseableRetryAfter,
+    PlanFailRetryAfter,
     Restart,
     // only in the reboot wait
     PingOk,
@@ -44,15 +48,25 @@ enum Step {
 
 fn is_failed_check(s: Step) -> Option<bool> {
     Some(match s {
-        Step::NoUpdate | Step::Installed | Step::InstalledRebootWait | Step::Deferred | Step::InstallFailed => false,
-        Step::Transport | Step::Status500 | Step::Unparseable | Step::PlanFail | Step::Forged => true,
+        Step::NoUpdate | Step::Installed | Step::InstalledRebootWait | Step::Deferred | Step::InstallFailed | Step::InstalledRetryAfter => false,
+        Step::Transport | Step::Status500 | Step::Unparseable | Step::PlanFail | Step::Forged | Step::UnparseableRetryAfter | Step::PlanFailRetryAfter => true,
         _ => return None,
     })
 }
 fn touches_time(s: Step) -> bool {
     matches!(
         s,
-        Step::NoUpdate | Step::Installed | Step::InstalledRebootWait | Step::Deferred | Step::InstallFailed | Step::Unparseable | Step::PlanFail | Step::PingOk
+        Step::NoUpdate
+            | Step::Installed
+            | Step::InstalledRebootWait
+            | Step::Deferred
+            | Step::InstallFailed
+            | Step::Unparseable
+            | Step::PlanFail
+            | Step::PingOk
+            | Step::InstalledRetryAfter
+            | Step::UnparseableRetryAfter
+            | Step::PlanFailRetryAfter
     )
 }
 
@@ -99,6 +113,9 @@ fn run_one(ctx: &RunCtx, tier: Tier) -> RunOut {
                 Step::Unparseable,
                 Step::PlanFail,
                 Step::Restart,
+                Step::InstalledRetryAfter,
+                Step::UnparseableRetryAfter,
+                Step::PlanFailRetryAfter,
             ];
             if cup {
                 m.push(Step::Forged);
@@ -138,6 +155,19 @@ fn run_one(ctx: &RunCtx, tier: Tier) -> RunOut {
                     k.plan_ok = false;
                 }
                 Step::Forged => k.uc = Uc::Forged,
+                Step::InstalledRetryAfter => {
+                    k.uc = Uc::Update;
+                    k.other_retry_after = vec![None, Some(b"600".to_vec()), None];
+                }
+                Step::UnparseableRetryAfter => {
+                    k.uc = Uc::Unparseable;
+                    k.other_retry_after = vec![Some(b"600".to_vec())];
+                }
+                Step::PlanFailRetryAfter => {
+                    k.uc = Uc::Update;
+                    k.plan_ok = false;
+                    k.other_retry_after = vec![Some(b"700".to_vec())];
+                }
                 Step::PingOk => {}
                 Step::PingTransport => k.other = vec![Rep::Transport],
                 Step::PingUnparseable => k.ping_unparseable = true,
@@ -176,7 +206,7 @@ fn run_one(ctx: &RunCtx, tier: Tier) -> RunOut {
     if let Some(p) = h.problems.first() {
         return out.fail(format!("driver problem: {p}"), format!("{steps:?}"));
     }
-    match oracle(&log, &marks, bad_url, &setup, &history, &initial) {
+    match oracle(&log, &marks, bad_url, cup, &setup, &history, &initial) {
         Ok(crash_points) => {
             out.nt_evals = crash_points;
             out
@@ -194,6 +224,7 @@ fn oracle(
     log: &[Obs],
     marks: &[(Step, i128, i128, usize, usize)],
     bad_url: bool,
+    cup: bool,
     setup: &Setup,
     history: &[std::collections::BTreeMap<String, StVal>],
     initial: &std::collections::BTreeMap<String, StVal>,
@@ -204,7 +235,8 @@ fn oracle(
     let mut crash_points = 0u64;
     // what a rebuilt machine must present for a given book
     let expect_present = |b: &Book| -> (Option<i128>, u32) { (b.time.and_then(|t| t.wall).map(trunc_us), b.counter) };
-    let check_snapshot = |snap: &std::collections::BTreeMap<String, StVal>, allowed: &[Book], what: &str| -> V<()> {
+    let mut poll: Option<std::time::Duration> = None; // reference poll interval (C07 rule)
+    let check_snapshot = |snap: &std::collections::BTreeMap<String, StVal>, allowed: &[Book], exp_poll: Option<std::time::Duration>, what: &str| -> V<()> {
         let (sched, state, _apps) = match hist::present_after_rebuild(setup, snap) {
             Some(x) => x,
             None => return bad("rebuilt state machine never consults its policy", what.to_string()),
@@ -222,12 +254,15 @@ fn oracle(
                 ),
             );
         }
-        if state.poll.is_some() {
-            return bad("poll interval presented although the server never dictated one", what.to_string());
+        if state.poll != exp_poll {
+            return bad(
+                format!("after a crash {what} the rebuilt machine presents another poll interval than the one in force at that commit"),
+                format!("presented {:?}, reference {exp_poll:?}", state.poll),
+            );
         }
         Ok(())
     };
-    check_snapshot(initial, &[book], "before anything was committed")?;
+    check_snapshot(initial, &[book], None, "before anything was committed")?;
     for (si, (step, lo, hi, l0, l1)) in marks.iter().enumerate() {
         let seg = &log[*l0..*l1];
         crash_points += seg.len() as u64;
@@ -340,12 +375,25 @@ fn oracle(
         // --- crash consistency: every commit of this step leaves a storage that presents either
         // the values before the step or the values after it, and the last one the values after.
         let commits_in_seg = seg.iter().filter(|o| matches!(o, Obs::St { op: StOp::Commit, ok: true })).count();
-        for c in 0..commits_in_seg {
-            let snap = &history[commit_no + c];
-            let last = c + 1 == commits_in_seg;
-            let finished = !matches!(step, Step::Restart);
-            let allowed: Vec<Book> = if last && finished && *step != Step::EndWait { vec![after] } else { vec![before, after] };
-            check_snapshot(snap, &allowed, &format!("after commit {} of step {si} ({step:?})", c + 1))?;
+        let mut c = 0;
+        for o in seg.iter() {
+            match o {
+                Obs::Resp(_, HttpAns::Resp(spec)) => {
+                    let forged = cup && spec.etag != EtagSpec::Auto;
+                    if !forged {
+                        poll = crate::props::c06::ref_retry_after(&spec.headers);
+                    }
+                }
+                Obs::St { op: StOp::Commit, ok: true } => {
+                    let snap = &history[commit_no + c];
+                    let last = c + 1 == commits_in_seg;
+                    let finished = !matches!(step, Step::Restart);
+                    let allowed: Vec<Book> = if last && finished && *step != Step::EndWait { vec![after] } else { vec![before, after] };
+                    check_snapshot(snap, &allowed, poll, &format!("after commit {} of step {si} ({step:?})", c + 1))?;
+                    c += 1;
+                }
+                _ => {}
+            }
         }
         commit_no += commits_in_seg;
         // --- durability: a finished check/ping must have committed
@@ -356,7 +404,7 @@ fn oracle(
         if must_commit && commits_in_seg == 0 {
             // nothing committed in this step: then the surviving storage must already present `after`
             let snap = if commit_no == 0 { initial } else { &history[commit_no - 1] };
-            check_snapshot(snap, &[after], &format!("after step {si} ({step:?}) finished without any commit"))?;
+            check_snapshot(snap, &[after], poll, &format!("after step {si} ({step:?}) finished without any commit"))?;
         }
         book = after;
     }
@@ -367,7 +415,7 @@ fn parts(tier: Tier) -> Vec<PartDef> {
     vec![PartDef::new(
         "histories-with-crash-points",
         Cfg::new("C08/histories"),
-        json!({"max_history_length": tier.pick(3, 4), "check_classes": 10, "ping_classes": 4, "restart": "any position", "cup": ["off", "on"], "construction_failure_config": true,
+        json!({"max_history_length": tier.pick(3, 4), "check_classes": 13, "ping_classes": 4, "restart": "any position", "cup": ["off", "on"], "construction_failure_config": true,
                "crash_points": "every environment interaction (decided per surviving committed snapshot; each snapshot is rebuilt into a fresh state machine)",
                "exploration": "full product"}),
         move |ctx| run_one(ctx, tier),
